@@ -35,9 +35,9 @@ func c13Configs(tier string) int {
 
 func (*C13) Plan(tier string) orch.Plan {
 	core := c13Configs(tier) << uint(c13K(tier))
-	extra := 1500
+	extra := 6000
 	if tier == "thorough" {
-		extra = 60000
+		extra = 400000
 	}
 	return orch.Plan{Episodes: core + extra, Batch: 64, Exhaustive: true,
 		Assumptions: []string{"exhaustive: true refers to the core (all fail/succeed assignments over the first K write attempts of each listed configuration); the rest is sampled"}}
